@@ -1027,6 +1027,7 @@ def work(task):
     path, j, nsplit = task
     mp.mp.dps = 60
     out = {"viol": [], "cov": Counter(), "evals": 0, "worst": {}, "errors": [], "events": 0}
+    seen = {}
     try:
         fh = open(path)
     except FileNotFoundError:
@@ -1046,11 +1047,19 @@ def work(task):
             if ev.get("ev") != "data" or "stmts" not in ev:
                 continue
             out["events"] += 1
+            nv = len(out["viol"])
             try:
                 judge_program(ev, out)
             except Exception as e:  # a defect of the oracle must be visible
                 import traceback
                 out["errors"].append("oracle exception on case %s: %r %s" % (ev.get("case"), e, traceback.format_exc()[-600:]))
+            # the first two observations of a signature keep their witness (the whole program); later ones are counted with
+            # case and detail only, so that a signature observed 10^5 times does not cost gigabytes
+            for v in out["viol"][nv:]:
+                seen[v["sig"]] = seen.get(v["sig"], 0) + 1
+                if seen[v["sig"]] > 2:
+                    v["witness"] = None
+                    v["detail"] = v["detail"][:200]
     return out
 
 
